@@ -14,7 +14,7 @@ D-f  nothing observed is omitted on the way out: the buffered ShExC writer deliv
      exactly once whatever the size of the document (R-PROTO, sa.rules.writer).
 Undecided: key preservation by the merge itself (value level, see C02)."""
 from ..report import Ob, Floor
-from ..rules import writer, threshold, twin, direction, count, mergetable
+from ..rules import writer, threshold, twin, direction, count, mergetable, loops
 from ..abseval import Evaluator
 from .. import exceptions
 
@@ -70,6 +70,7 @@ def check(ctx, tier):
     obs += ctx.attempt(lambda c, cl: direction.explicit_direction(c, cl)[0], ctx, "D-g", default=[])
     obs += ctx.attempt(lambda c, cl: count.class_iteration_agreement(c, cl)[0], ctx, "D-h", default=[])
     obs += ctx.attempt(lambda c, cl: mergetable.invariants(c, cl, which=('one-per-key', 'figures'))[0], ctx, "D-i", default=[])
+    obs += ctx.attempt(loops.every_yielded_item_is_kept, ctx, "D-j", "shexer.core.shexing.class_shexer:ClassShexer._build_shapes", "shape", default=[])
     exceptions.apply(obs)
     floors = [Floor("threshold filter comparisons", len(tf.filters), 3), Floor("range-check comparisons", len(tf.range_checks), 2),
               Floor("functions that see the threshold", len(tf.tainted_funcs), 8), Floor("candidate construction sites", n_sites, 3)]
